@@ -213,7 +213,55 @@ def _find_lcas(
             results.append((dt, cmt))
     results.sort(key=lambda x: x[0])
     lcas = [cmt for dt, cmt in results]
+    if len(lcas) > 1:
+        # The loop above stops as soon as every queued commit is marked _DNC,
+        # so when timestamps tie or run backwards an ancestor of another
+        # candidate can have been collected before that mark reached it. Like
+        # git's remove_redundant(), keep only the maximal candidates.
+        lcas = _remove_redundant(lookup_parents, lcas, shallows)
     return lcas
+
+
+def _remove_redundant(
+    lookup_parents: Callable[[ObjectID], list[ObjectID]],
+    candidates: list[ObjectID],
+    shallows: set[ObjectID] | None = None,
+) -> list[ObjectID]:
+    """Drop every candidate that is an ancestor of another candidate.
+
+    Args:
+        lookup_parents: Function to get parent commits
+        candidates: Common ancestor candidates
+        shallows: Set of shallow commits
+
+    Returns:
+        The candidates that are not reachable from any other candidate
+    """
+    wanted = set(candidates)
+    redundant: set[ObjectID] = set()
+    for candidate in candidates:
+        if candidate in redundant:
+            # Everything below it is reachable from whatever reaches it
+            continue
+        seen: set[ObjectID] = set()
+        todo = [candidate]
+        while todo:
+            cmt = todo.pop()
+            try:
+                parents = lookup_parents(cmt)
+            except KeyError:
+                # Missing parents in a shallow repository end the walk here
+                if shallows is not None and shallows:
+                    continue
+                raise
+            for pcmt in parents:
+                if pcmt in seen:
+                    continue
+                seen.add(pcmt)
+                if pcmt in wanted:
+                    redundant.add(pcmt)
+                todo.append(pcmt)
+    return [cmt for cmt in candidates if cmt not in redundant]
 
 
 # actual git sorts these based on commit times
